@@ -38,6 +38,10 @@ func h11RoundTrip(ts Tokens, nch []int) {
 		vAssert(len(idx) == 2*t+1, "a general sequence does not get two bytes per token plus one")
 	}
 
+	// the index must stay valid while other passwords are indexed
+	other := Tokens{Token{"zz", AtomType}, Token{"-", SeparatorType}, Token{"y", AtomType}, Token{"q", TokenType(0)}}
+	oidx, _ := other.MakeIndices()
+	_ = oidx
 	p := Password{tokens: ts, Entropy: ent}
 	pw := p.String()
 	var out Password
